@@ -256,6 +256,10 @@ def random_config(r: random.Random, P, allow_cost=True, ca=None):
     vh = r.choice([0, 0, 1, 2, 3 if (nonneg and allow_cost) else 1])
     dh = r.choice([0, 0, 1, 2, 3, 4 if (nonneg and allow_cost) else 3])
     cfg = {"ca": r.choice([0, 0, 1]) if ca is None else ca, "vh": vh, "dh": dh, "height": 64}
+    if r.random() < 0.25 and len(P["doms"]) > 1:      # every domain is a decision domain, listed in another order
+        dec = list(range(len(P["doms"])))
+        r.shuffle(dec)
+        cfg["decision"] = dec
     if vh == 3:
         cfg["vparams"] = [[r.randint(1, 3) for _ in range(width)] for _ in P["doms"]]
     if dh == 4:
